@@ -408,6 +408,36 @@ func InjectAt(r *rng.R, p *Program, idx int) (Injection, bool) {
 			f.Defs = append(f.Defs, d)
 			return "enum items aliasing values with labels of their own", true
 		}},
+		{"D80-included-file-named-like-a-name-of-the-generated-file", "K:D80", func() (string, bool) {
+			// the package of an included file is imported under its own name; the generated file
+			// already uses that name for something else (the constant rawIDL, the type string)
+			for _, f := range p.Files {
+				if len(f.Includes) == 0 {
+					continue
+				}
+				g := f.Includes[r.Intn(len(f.Includes))]
+				name := []string{"rawIDL", "string"}[r.Intn(2)]
+				for _, h := range p.Files {
+					if h.Base() == name {
+						return "", false
+					}
+				}
+				g.Path = path.Join(path.Dir(g.Path), name+".thrift")
+				return "included file renamed to " + g.Path, true
+			}
+			return "", false
+		}},
+		{"D84-file-named-like-a-go-keyword", "K:D84", func() (string, bool) {
+			f := p.Files[r.Intn(len(p.Files))]
+			name := []string{"range", "type", "func", "select", "go"}[r.Intn(5)]
+			for _, h := range p.Files {
+				if h.Base() == name {
+					return "", false
+				}
+			}
+			f.Path = path.Join(path.Dir(f.Path), name+".thrift")
+			return "file renamed to " + f.Path, true
+		}},
 		{"D81-set-constant-with-a-repeated-item", "B", func() (string, bool) {
 			f := p.Files[r.Intn(len(p.Files))]
 			one := func() *Lit { return &Lit{K: LInt, I: 1} }
